@@ -46,7 +46,11 @@ def lim(v, n):
 
 
 def flow_one(args):
-    b, off = args
+    """(bytes, offset) -> flow record of the instruction decoded at that offset; (bytes, offset, moved_to): the instruction is
+    decoded at `offset`, asked once, then its offset attribute is set to moved_to (as code that relocates instruction objects
+    does) and it is asked again: the record describes the instruction at moved_to"""
+    b, off = args[0], args[1]
+    moved = args[2] if len(args) > 2 else None
     if ia32lib._mn is None:
         ia32lib._init()
     from miasmx.core.bin_stream import bin_stream
@@ -65,6 +69,16 @@ def flow_one(args):
     r['st'] = 'instr'
     r['len'] = int(ins.l)
     r['ioff'] = int(ins.offset)
+    if moved is not None:
+        try:
+            ins.breakflow(), ins.splitflow(), ins.getnextflow()
+            if ins.dstflow():
+                ins.getdstflow()
+        except Exception:
+            pass
+        ins.offset = moved
+        r['off'] = lim(moved, 4)
+        r['moved_from'] = off
     try:
         r['bk'], r['sp'], r['dt'] = bool(ins.breakflow()), bool(ins.splitflow()), bool(ins.dstflow())
         nx = ins.getnextflow()
@@ -130,7 +144,7 @@ def judge(chk, label, items, rnd):
                 key['offset_class'] = 'wraps' if off + v['len'] >= (1 << 32) or (v['os'] == 16 and off >= (1 << 16) - 16) else ('high' if off >= (1 << 31) - 16 else 'low')
             if o['dk'] == 'exc':
                 key.update(o.get('exc', {}))
-            chk.violation(key, {'bytes': bytes(o['b']).hex(), 'offset': off, 'observed': {k: o.get(k) for k in ('len', 'bk', 'sp', 'dt', 'dk', 'dst_raw', 'nxt')},
+            chk.violation(key, {'bytes': bytes(o['b']).hex(), 'offset': off, 'moved_from': o.get('moved_from'), 'observed': {k: o.get(k) for k in ('len', 'bk', 'sp', 'dt', 'dk', 'dst_raw', 'nxt')},
                                 'verdict': v})
     for o in obs:
         if o['st'] == 'instr' and o['dt'] and o['dk'] == 'int' and len(chk.cov['samples']) < 5:
@@ -157,6 +171,10 @@ def run(tier, chk):
         ctl = ctl[:300000]
     items = [(b, o) for b in ctl for o in offsets(len(b))]
     obs, tot = judge(chk, 'control-transfer forms x 6 offsets', items, rnd)
+    moved = [(b, 0, 0x401000) for b in ctl] + [(b, 0x1000, (1 << 31) - 3) for b in ctl]
+    if tier == 'quick':
+        moved = [m for m in moved if rnd.random() < 0.5]
+    judge(chk, 'control-transfer forms decoded at one offset, asked, moved to another offset and asked again', moved, rnd)
     chk.cov['distinct_nontrivial'] = tot['cmp']
     g0 = ia32space.gen(0, False, None, chk)
     seq = [bytes.fromhex(h) for h in g0['done']]
@@ -193,5 +211,7 @@ def negative_control(chk):
 
 def replay(path, chk):
     rp = json.load(open(path))
-    judge(chk, 'replay', [(bytes.fromhex(rp['detail']['bytes']), rp['detail']['offset'])], random.Random(chk.seed))
+    d = rp['detail']
+    item = (bytes.fromhex(d['bytes']), d['offset']) if d.get('moved_from') is None else (bytes.fromhex(d['bytes']), d['moved_from'], d['offset'])
+    judge(chk, 'replay', [item], random.Random(chk.seed))
     return chk.finish()
